@@ -207,7 +207,7 @@ def check_property(prop, tier, seed, replay=None):
                 broken.append("props/%s does not match its pinned statement hash" % fn)
         # ---- proof obligations
         targets = (["props/%s.vo" % prop.MODULE] if prop.MODULE else []) + list(prop.EXTRA_TARGETS) + \
-                  ["model/Run.vo", "model/Extra.vo", "model/Hyp.vo", "gen/Kernels.vo", "proofs/QuarticFloat.vo", "props/C09F.vo", "props/C11F.vo"]
+                  ["model/Run.vo", "model/Extra.vo", "model/Hyp.vo", "gen/Kernels.vo", "proofs/QuarticFloat.vo", "props/C09F.vo", "props/C11F.vo", "proofs/SplineFloat.vo"]
         ok_make, mlog = C.coq_make(targets)
         checker_cmd = "cd coq && make -j%d %s" % (C.NCPU, " ".join(targets))
         obligations = len(prop.THEOREMS) + n_gen
@@ -306,7 +306,7 @@ def check_property(prop, tier, seed, replay=None):
             step = len(hterms) / float(lim)
             hterms = [hterms[int(k * step)] for k in range(lim)]
         if hterms:
-            hres_, hlog = C.run_coq_cases(hterms, "%s_hyp" % pid)
+            hres_, hlog = C.run_coq_cases(hterms, "%s_hyp" % pid, shards=min(C.NCPU, len(hterms)))
             got = [r for r in hres_ if r]
             hyp = dict(checked=len(hterms), evaluated=len(got), hypotheses_hold=sum(1 for r in got if r[0] == 1))
             if any(len(r) > 1 for r in got):
